@@ -113,22 +113,35 @@ Proof.
   specialize (H c Hc). norm_pow. norm_pow in H. lia.
 Qed.
 
-Lemma sb_get_superblock_counter_rec sbc f c : c <= 3 -> fbound (f c) ->
+Lemma sb_get_superblock_counter_rec sbc f c : c <= 3 -> fbound (f c) -> sbc c < 2 ^ 44 ->
   sb_get_superblock_counter (sbrec sbc f) c = Val (sbc c).
 Proof.
-  intros Hc Hf. unfold sb_get_superblock_counter, sbrec. rewrite uidx_vec4 by assumption.
-  cbn [bind]. rewrite SB_SHIFT_GC_val, packw_sbc by assumption. reflexivity.
+  intros Hc Hf Hs. unfold sb_get_superblock_counter, sbrec. rewrite uidx_vec4 by assumption.
+  cbn [bind]. rewrite SB_SHIFT_GC_val, packw_sbc by assumption.
+  rewrite N.mod_small by (norm_pow; norm_pow in Hs; lia). reflexivity.
 Qed.
 
-Lemma sb_get_rank_rec sbc f c b : c <= 3 -> fbound (f c) -> b <= 7 ->
+(* block ids <= 7 and superblock counters < 2^44: none of the overflow checks of get_rank fires *)
+Lemma sb_get_rank_rec sbc f c b : c <= 3 -> fbound (f c) -> b <= 7 -> sbc c < 2 ^ 44 ->
   sb_get_rank (sbrec sbc f) c b = Val (sbc c + (if b =? 0 then 0 else f c b)).
 Proof.
-  intros Hc Hf Hb. unfold sb_get_rank, sbrec. rewrite uidx_vec4 by assumption. cbn [bind].
+  intros Hc Hf Hb Hs. unfold sb_get_rank, sbrec. rewrite uidx_vec4 by assumption. cbn [bind].
   rewrite SB_SHIFT_GR_val, BLK_BITS_GR_val, BLK_MASK_GR_val, packw_sbc by assumption.
-  rewrite land4095. f_equal. f_equal.
+  rewrite (N.mod_small (sbc c)) by (norm_pow; norm_pow in Hs; lia).
+  assert (M : forall x, (x mod 2 ^ 64) mod 4096 = x mod 4096) by (intros x; norm_pow; lia).
   destruct (N.eqb_spec b 0) as [->|Hn].
-  - replace (0 <? 0) with false by lia. lia.
-  - replace (0 <? b) with true by lia. rewrite (N.mul_comm _ 12), packw_shift by (try assumption; lia). lia.
+  - replace (0 <? 0) with false by lia. unfold osub. replace (0 <=? 0) with true by lia. cbn [bind].
+    unfold omul at 1. replace ((0 - 0) * 12 <? 2 ^ 64) with true by (norm_pow; lia). cbn [bind].
+    unfold oshr. replace ((0 - 0) * 12 <? 128) with true by lia. cbn [bind].
+    unfold omul, oadd. rewrite N.mul_0_r. replace (0 <? 2 ^ 64) with true by (norm_pow; lia). cbn [bind].
+    replace (sbc c + 0 <? 2 ^ 64) with true by (norm_pow; norm_pow in Hs; lia). reflexivity.
+  - replace (0 <? b) with true by lia. unfold osub. replace (1 <=? b) with true by lia. cbn [bind].
+    unfold omul at 1. replace ((b - 1) * 12 <? 2 ^ 64) with true by (norm_pow; lia). cbn [bind].
+    unfold oshr. replace ((b - 1) * 12 <? 128) with true by lia. cbn [bind].
+    rewrite land4095, M, (N.mul_comm _ 12), packw_shift by (try assumption; lia).
+    pose proof (Hf b ltac:(lia)) as Hfb.
+    unfold omul, oadd. rewrite N.mul_1_r. replace (f c b <? 2 ^ 64) with true by (norm_pow; lia). cbn [bind].
+    replace (sbc c + f c b <? 2 ^ 64) with true by (norm_pow; norm_pow in Hs; lia). reflexivity.
 Qed.
 
 Lemma sb_set_block_counters_0 s cs : (forall c, c <= 3 -> cs c < 4096) ->
